@@ -466,6 +466,36 @@ def check(ctx):
         for x in subterms(seeds))
     ctx.ob("C10.R6", build, "the engine key is split into one key per chain", ok_seed,
            detail=short(seeds or ()))
+    # build() reads the builder and never writes it back: a second engine built from the
+    # same builder starts from the same initial states, keys and kernels
+    SELF_ = n("self")
+    wr = [(loc, nd) for loc, val, nd, cond in rb.stores
+          if loc[0] in ("a", "s") and _rooted_in_self_field(loc)]
+    mut = [(t, nd) for t, nd, cond in rb.calls if t[0] == "call" and t[1][0] == "a"
+           and t[1][2] in ("append", "extend", "update", "clear", "pop", "insert", "remove",
+                           "setdefault", "popitem", "__setitem__")
+           and t[1][1][0] == "a" and t[1][1][1] == SELF_]
+    ctx.ob("C10.R6", build, "build() does not write the builder's own fields (initial model "
+                            "state, keys, kernels, jitter functions, epochs): building twice "
+                            "gives the same engine", not wr and not mut,
+           detail="; ".join([pretty(l_)[:50] for l_, _ in wr] + [short(t, 50) for t, _ in mut]),
+           node=(wr[0][1] if wr else (mut[0][1] if mut else None)),
+           stmt="builder written by build: " + ", ".join(
+               sorted({pretty(l_)[:40] for l_, _ in wr} | {pretty(t[1])[:40] for t, _ in mut})))
+
+    # ---- shared mechanisms: the neighbour's rules run as obligations of this property
+    ctx.include("C07", "C10.R8", only=['C07.R8'])
+    ctx.rule("R8", "shared mechanisms, run as obligations of this property: per-chain results of every lifecycle event are stored as returned, chain by chain (C07.R8).")
+
+
+def _rooted_in_self_field(loc) -> bool:
+    """self.<field> = ... or self.<field>[k] = ... (not: attributes of other objects)."""
+    if loc[0] == "a":
+        return loc[1] == n("self")
+    if loc[0] == "s":
+        base = loc[1]
+        return base[0] == "a" and base[1] == n("self")
+    return False
 
 
 def _per_chain(a, ka, fi, used) -> bool:
